@@ -115,8 +115,17 @@ def fresh_twins(prop, tier, seed, specs, results, entries):
     if not idxs:
         return [], 0
     env = dict(os.environ, VERIF_HASHSEED=cfg["hashseed"], PYTHONHASHSEED=cfg["hashseed"])
-    cp = subprocess.run([sys.executable, os.path.abspath(__file__), "fresh", prop, tier, str(seed), ",".join(map(str, idxs))],
-                        capture_output=True, text=True, timeout=3000, env=env)
+    import tempfile
+
+    # the index list can be long (thorough tier: every run): passed through a file, not the command line
+    with tempfile.NamedTemporaryFile("w", suffix=".idx", delete=False) as f:
+        f.write(",".join(map(str, idxs)))
+        idx_path = f.name
+    try:
+        cp = subprocess.run([sys.executable, os.path.abspath(__file__), "fresh", prop, tier, str(seed), "@" + idx_path],
+                            capture_output=True, text=True, timeout=5400, env=env)
+    finally:
+        os.unlink(idx_path)
     try:
         fresh = json.loads(cp.stdout.strip().splitlines()[-1])
     except Exception:
@@ -389,7 +398,8 @@ def main():
     if len(sys.argv) >= 2 and sys.argv[1] == "freshscen":
         sys.exit(cmd_freshscen(sys.argv[2]))
     if len(sys.argv) >= 2 and sys.argv[1] == "fresh":
-        sys.exit(cmd_fresh(sys.argv[2], sys.argv[3], int(sys.argv[4]), [int(x) for x in sys.argv[5].split(",")]))
+        _arg = open(sys.argv[5][1:]).read() if sys.argv[5].startswith("@") else sys.argv[5]
+        sys.exit(cmd_fresh(sys.argv[2], sys.argv[3], int(sys.argv[4]), [int(x) for x in _arg.split(",")]))
     if len(sys.argv) >= 2 and sys.argv[1] == "digests":
         sys.exit(cmd_digests(sys.argv[2], sys.argv[3], int(sys.argv[4]), [int(x) for x in sys.argv[5].split(",")]))
     if "--selfcheck" in sys.argv:
